@@ -112,11 +112,13 @@ fn apply<const B: usize, const L: usize>(op: u64, a: Uint<B, L>, b: Uint<B, L>, 
         54 => ("next_power_of_two", o(a.checked_next_power_of_two())),
         55 => ("next_multiple_of", o(a.checked_next_multiple_of(b))),
         56 => ("set_bit", {
+            // any index: in range, in the padding bits of the top limb, and beyond the limbs
+            // (out-of-range indices are documented to do nothing)
             let mut x = a;
-            if B > 0 {
-                x.set_bit((k as usize) % B, k & (1 << 20) != 0);
-            }
-            vec![x]
+            x.set_bit((k % (64 * L as u64 + 70)) as usize, k & (1 << 20) == 0);
+            let mut y = a;
+            y.set_bit((k >> 8) as usize % (B + 1).max(1), k & (1 << 21) != 0);
+            vec![x, y]
         }),
         57 => ("wrapping_from(u64)", vec![Uint::wrapping_from(k)]),
         58 => ("saturating_from(u64)", vec![Uint::saturating_from(k)]),
